@@ -743,7 +743,14 @@ pub fn run(args: &Args) -> Report {
         }
         match catching(|| run_seq(&ops, 0, None)) {
             Ok(None) => {}
-            Ok(Some((i, sig, d))) => rep.violation(sig, format!("op #{i}: {d}"), json!({"ops": opj(&ops[..=i])})),
+            Ok(Some((i, sig, d))) => {
+                let small = shrink_seq(ops[..=i].to_vec(), |t| matches!(catching(|| run_seq(t, 0, None)), Ok(Some((_, s2, _))) if s2 == sig));
+                let d2 = match catching(|| run_seq(&small, 0, None)) {
+                    Ok(Some((j, _, d2))) => format!("op #{j}: {d2}"),
+                    _ => format!("op #{i}: {d}"),
+                };
+                rep.violation(sig, d2, json!({"ops": opj(&small), "shrunk_from_len": i + 1}))
+            }
             Err(p) => rep.violation(format!("C14:panic:{}", panic_site(&p)), p, json!({"ops": opj(&ops)})),
         }
     }
